@@ -45,6 +45,15 @@ Lemma chain_head_nonzero nx a l : a <> 0 -> chain nx a l ->
   exists t, l = a :: t /\ chain nx (tget nx a) t.
 Proof. intros Ha H. inversion H; subst; [congruence|]. eexists; split; eauto. Qed.
 
+Lemma NoDup_app_intro {A} (l1 l2 : list A) :
+  NoDup l1 -> NoDup l2 -> (forall a, In a l1 -> ~ In a l2) -> NoDup (l1 ++ l2).
+Proof.
+  induction l1 as [|x l1 IH]; intros H1 H2 Hd; cbn [app]; [assumption|].
+  inversion H1 as [|y l Hx Hl]; subst. constructor.
+  - rewrite in_app_iff. intros [Hin|Hin]; [contradiction|]. apply (Hd x); [now left|assumption].
+  - apply IH; auto. intros a Ha. apply Hd. now right.
+Qed.
+
 (* ---- counting the cells of 1..n-1 -------------------------------------------------- *)
 
 Lemma range_list n : exists r, NoDup r /\ (forall a, In a r <-> 1 <= a < n) /\
